@@ -21,13 +21,19 @@ NATIVE_OK = {"C04"}
 # property -> [(Props module, regex selecting the theorems of that module that belong to the property)]
 PROP_MODULES = {
     "C01": [("C01Prime", r"add_spec|sub_spec|mul_spec|neg_spec|mul_no_overflow|element_spec|fromSigned|beq_iff|repr_unique|isZero_iff|isOne_iff|zero_one_repr|primeOps_lawful|primeLawful|primeOps_ofNat|primeOps_ofInt|primeOps_char_card"),
-            ("C01Bin", r"^(?!.*(pow|inv|bitProd|bitQuoRem|trace)).*$"), ("C01Ext", r".*"), ("C01", r".*")],
-    "C02": [("C01Prime", r"inv_|invLoop|pow|powLoop"), ("C01Bin", r"pow|inv|bitProd|bitQuoRem|trace"), ("C02", r".*")],
+            ("C01Bin", r"^(?!.*(pow|inv|bitProd|bitQuoRem|trace)).*$"), ("C01Ext", r"^(?!.*(pow|inv|trace|log)).*$"), ("C01", r".*"),
+            ("CodeTies", r"reduce_tie")],
+    "C02": [("C01Prime", r"inv_|invLoop|pow|powLoop"), ("C01Bin", r"pow|inv|bitProd|bitQuoRem|trace"), ("C02", r".*"),
+            ("C01Ext", r"pow|inv|trace"), ("CodeTies", r"bitProd_tie|bitQuoRem_tie")],
+    "C08": [("C08", r".*"), ("CodeTies", r"addDegs_tie|subtractDegs_tie")],
+    "C09": [("C09", r".*"), ("CodeTies", r"swap_tie|lex_tie|lex_fun_tie|degCompare_tie|wdeglex_tie|wdegrevlex_tie|deglex_tie|degrevlex_tie")],
+    "C19": [("C19", r".*"), ("CodeTies", r"boundSqrt_tie|boundLog2_tie|pow_tie|gcd_tie")],
     "C03": [("C03", r".*"), ("C01Prime", r"multGenerator|isGenerator"), ("GenTies", r"DefineConds|ffDefineCases")],
     "C15": [("C15", r".*"), ("GenTies", r"Pattern|Regex|XOrY|regex|VarName")],
     "C16": [("C16", r".*"), ("C16Static", r".*")],
     "C17": [("C17", r".*"), ("GenTies", r"kindNames"), ("C15", r"parse_total")],
-    "C18": [("C18", r".*"), ("C01Prime", r"lookup|computeTables|estimateMemory"), ("GenTies", r"MaxMem|EstimateMemory")],
+    "C18": [("C18", r".*"), ("C01Prime", r"lookup|computeTables|estimateMemory"), ("GenTies", r"MaxMem|EstimateMemory"),
+            ("CodeTies", r"estimateMemory_tie"), ("C01Ext", r"log")],
 }
 
 
